@@ -96,6 +96,22 @@ const STEPS: &[(&str, &str)] = &[
     ("(ulimit -S -n 12; echo a | cat | cat; echo st=$?)", "pipe-under-descriptor-limit"),
     ("(ulimit -S -n 4; exec 3<e; echo $?; exec 4<e; echo $?; cat <&3)", "open-under-descriptor-limit"),
     ("(ulimit -S -n 11; echo x >f; echo st=$?; cat <f; { echo y >f; } >&2; echo st=$?; cat <f)", "open-under-descriptor-limit"),
+    // exit statuses are 8 bits wide for the parent
+    ("(exit 256); echo $?; (exit 263); echo $?", "exit-status-width"),
+    ("(exit 300) & wait $!; echo $?", "exit-status-width"),
+    ("exit 263", "exit-status-width"),
+    // path edge cases
+    ("cat <''; echo $?", "empty-path"),
+    ("echo x >''; echo $?", "empty-path"),
+    ("cd ''; echo $?; pwd", "empty-path"),
+    ("echo x >newf/; echo $?", "trailing-slash-create"),
+    ("cat <e/; echo $?", "trailing-slash-file"),
+    ("cat <d/g/; echo $?", "trailing-slash-file"),
+    // a failed open leaves the file alone
+    ("echo old >f; (ulimit -S -n 3; echo new >f); cat <f", "open-fails-file-untouched"),
+    ("(ulimit -S -n 3; echo new >created); echo *", "open-fails-file-untouched"),
+    // a reaped child is gone
+    ("(exit 0) & wait $!; kill -s TERM $!; echo st=$?", "signal-to-reaped-child"),
     ("cat <<E\nhere $((1+1))\nE", "here-document"),
     ("cat <<E | cat\npiped\nE", "here-document-pipeline"),
     ("cd d; cd ..; cd -; pwd", "cd-oldpwd"),
